@@ -277,6 +277,15 @@ def cases(ctx):
              "lines": ["01=a", "02='", "03=\\", "0405=\\'"]}
     for s in ["a\\'a", "\\'", "aa\\'\\'a"]:
         out.append({"kind": "asm", "tables": [esc_t], "prog": [["table", 0], ["text", s]]})
+    # a table with a line-break entry (`FE=\n` in the file) and .text strings that spell backslash + n: the two characters are
+    # looked up like any others (with and without an entry for the backslash itself)
+    for with_bs in (True, False):
+        nl_t = {"entries": [["a", [1], None], ["\n", [0xFE], None], ["n", [0x6E], None], ["b", [2], None]] + ([["\\", [0x5C], None]] if with_bs else []),
+                "lines": ["01=a", "FE=\\n", "6E=n", "02=b"] + (["5C=\\"] if with_bs else [])}
+        for s in ["a\\nb", "\\n", "an\\n\\nb", "a\\", "\\nn"]:
+            if not s.endswith("\\"):      # (a backslash before the closing quote would escape it)
+                out.append({"kind": "asm", "tables": [nl_t], "prog": [["table", 0], ["text", s], ["block", [["text", "b" + s]]]]})
+            out.append({"kind": "codec", "table": nl_t, "s": s})
     out.append({"kind": "asm", "tables": [{"entries": [], "lines": ["; nothing"]}], "prog": [["table", 0], ["text", "a"]]})
     out.append({"kind": "asm", "tables": [t_over], "prog": [["block", [["table", 0], ["text", "ab"]]], ["block", [["text", "ab"]]]]})
     out.append({"kind": "asm", "tables": [t_over, esc_t],
